@@ -140,7 +140,9 @@ def build(extra_flags=(), targetos="Linux", only_units=None, use_cache=True):
         srcdir = os.path.join(scratch, "src")
         nfiles = _copy_sources(srcdir)
         key = _tree_hash(srcdir, (tuple(extra_flags), targetos, only_units))
-        cdir = os.path.join(CACHE, key)
+        if REPO != "/repo" or os.environ.get("IODINE_NOCACHE"):
+            use_cache = False
+        cdir = os.path.join(CACHE, key) if use_cache else os.path.join(scratch, "facts")
         if use_cache and os.path.exists(os.path.join(cdir, "DONE")):
             with open(os.path.join(cdir, "meta.json")) as f:
                 meta = json.load(f)
@@ -187,8 +189,9 @@ def build(extra_flags=(), targetos="Linux", only_units=None, use_cache=True):
         for u in meta["units"]:
             with open(os.path.join(cdir, u + ".json")) as f:
                 facts[u] = json.load(f)
-        meta["cache"] = "miss"
-        _prune_cache(keep=key)
+        meta["cache"] = "miss" if use_cache else "off"
+        if use_cache:
+            _prune_cache(keep=key)
         return facts, links, meta
     finally:
         shutil.rmtree(scratch, ignore_errors=True)
